@@ -225,6 +225,43 @@ func (e *cmpEval) block(list []ast.Stmt) (absVal, bool) {
 					return v, ok
 				}
 			}
+		case *ast.SwitchStmt:
+			// a tagless switch is an if / else-if chain; the first clause whose condition holds is taken
+			if s.Init != nil || s.Tag != nil {
+				e.err = "switch with init or tag in comparator"
+				return absVal{}, false
+			}
+			var deflt *ast.CaseClause
+			taken := false
+			for _, cl := range s.Body.List {
+				cc := cl.(*ast.CaseClause)
+				if cc.List == nil {
+					deflt = cc
+					continue
+				}
+				hold := false
+				for _, ce := range cc.List {
+					c := e.eval(ce)
+					if e.err != "" {
+						return absVal{}, false
+					}
+					if c.b {
+						hold = true
+					}
+				}
+				if hold {
+					taken = true
+					if v, ok := e.block(cc.Body); ok || e.err != "" {
+						return v, ok
+					}
+					break
+				}
+			}
+			if !taken && deflt != nil {
+				if v, ok := e.block(deflt.Body); ok || e.err != "" {
+					return v, ok
+				}
+			}
 		default:
 			e.err = fmt.Sprintf("statement %T in comparator", st)
 			return absVal{}, false
